@@ -201,6 +201,11 @@ def run(tier, seed):
                          delete_flags=(False, True), cforce_flags=((False, False), (True, False), (False, True)))
         d0, d1 = (3, 4) if tier == 'quick' else (3, 5)
         plan.append((desc, sp, d0, d1))
+    memchain = dag_world(3, {(0, 1), (1, 2)})
+    memchain['name'] = 'memchain3'
+    memchain['tasks']['T1']['data'] = 'inmemory'
+    sp = specs.build(memchain, variants=['v0'], ops=('new', 'value', 'cforce', 'inspect'), slots=1, force_sets=[['t0'], ['t1']], cforce_flags=((False, False), (True, False), (False, True), (True, True)))
+    plan.append((memchain, sp, 3, 4 if tier == 'quick' else 5))
     desc = twons_world()
     sp = specs.build(desc, variants=['v0'], ops=('new', 'value', 'cforce', 'inspect'), slots=1, tasks=['n1::r', 'n2::r', 'n2::cl'],
                      force_sets=[['n1::s'], ['n2::s'], ['n1::cl', 'n2::s']], cforce_flags=((False, False), (True, False), (False, True)))
